@@ -222,6 +222,62 @@ Qed.
 (** The same for every store at once, whatever else happens afterwards is not
     claimed: the statement is about the instant after the pulls. *)
 
+(** Every store at once: after each store of [nodes] has pulled every node's state
+    (one after the other, in the order of the list), ALL of them report increments
+    minus decrements - a pull by one store does not touch another store's replica. *)
+Lemma pull_other S key r s l : s <> r ->
+  st_view (fold_left (st_step true) (pull_all r l) S) key s = st_view S key s.
+Proof.
+  intros Hne. revert S; induction l as [|x l IH]; intros S; cbn [pull_all map concat fold_left app]; [reflexivity|].
+  fold (pull_all r l). rewrite IH. rewrite view_recv.
+  destruct (Z.eqb_spec s r) as [E|_]; [contradiction|]. reflexivity.
+Qed.
+
+Lemma sincs_pull key k r l : sincs key k (pull_all r l) = 0.
+Proof. induction l as [|x l IH]; cbn; [reflexivity|exact IH]. Qed.
+Lemma sdecs_pull key k r l : sdecs key k (pull_all r l) = 0.
+Proof. induction l as [|x l IH]; cbn; [reflexivity|exact IH]. Qed.
+
+Definition pull_round (who nodes : list Z) : list st_op := concat (map (fun r => pull_all r nodes) who).
+
+Lemma sincs_round key k who nodes : sincs key k (pull_round who nodes) = 0.
+Proof.
+  induction who as [|r who IH]; cbn; [reflexivity|]. fold (pull_round who nodes).
+  rewrite sincs_app, sincs_pull, IH. reflexivity.
+Qed.
+Lemma sdecs_round key k who nodes : sdecs key k (pull_round who nodes) = 0.
+Proof.
+  induction who as [|r who IH]; cbn; [reflexivity|]. fold (pull_round who nodes).
+  rewrite sdecs_app, sdecs_pull, IH. reflexivity.
+Qed.
+
+Lemma round_other S key s who nodes : ~ In s who ->
+  st_view (fold_left (st_step true) (pull_round who nodes) S) key s = st_view S key s.
+Proof.
+  revert S; induction who as [|r who IH]; intros S Hn; cbn; [reflexivity|]. fold (pull_round who nodes).
+  rewrite fold_left_app, IH by (intros H; apply Hn; right; exact H).
+  apply pull_other. intros ->. apply Hn. left; reflexivity.
+Qed.
+
+Theorem store_all_converge ops nodes key r : NoDup nodes -> In r nodes ->
+  st_value nodes (st_run true (ops ++ pull_round nodes nodes)) key r =
+    zsum (map (fun k => sincs key k ops) nodes) - zsum (map (fun k => sdecs key k ops) nodes).
+Proof.
+  intros ND Hin. destruct (in_split _ _ Hin) as (l1 & l2 & E).
+  assert (Hl2 : ~ In r l2).
+  { rewrite E in ND. apply NoDup_remove_2 in ND. intros H. apply ND. apply in_or_app. right; exact H. }
+  unfold pull_round. rewrite E at 2. rewrite map_app, concat_app. cbn [map concat].
+  fold (pull_round l1 nodes) (pull_round l2 nodes).
+  unfold st_run, st_value. rewrite !app_assoc. rewrite fold_left_app.
+  rewrite (round_other _ key r l2 nodes Hl2).
+  rewrite <- app_assoc.
+  pose proof (store_counter_value (ops ++ pull_round l1 nodes) nodes r key) as H.
+  unfold st_run, st_value in H. rewrite <- app_assoc in H. rewrite H.
+  f_equal; apply zsum_ext; intros k _.
+  - rewrite sincs_app, sincs_round. lia.
+  - rewrite sdecs_app, sdecs_round. lia.
+Qed.
+
 (* ------------------------------------------------------------------ *)
 (** * The pre-c92c1df new-key branch loses updates *)
 
